@@ -38,6 +38,17 @@ def parse(text):
                 elif p == SH['in']:
                     items = list(Collection(g, o))
                     d['restr'].append("in:" + "|".join(str(x) for x in items))
+                elif p == SH['or']:
+                    alts = []
+                    for alt in Collection(g, o):
+                        rs = []
+                        for p2, o2 in g.predicate_objects(alt):
+                            if p2 == SH.nodeKind: rs.append("nodeKind:" + str(o2))
+                            elif p2 == SH.dataType: rs.append("datatype:" + str(o2))
+                            elif p2 == SH.node: rs.append("node:" + str(o2))
+                            else: rs.append("other:" + str(p2))
+                        alts.append("|".join(sorted(rs)) or "none")
+                    d['restr'].append("or:" + ";".join(sorted(alts)))
                 elif p == SH.minCount:
                     d['min'] = int(o)
                 elif p == SH.maxCount:
@@ -48,7 +59,7 @@ def parse(text):
                     d['restr'].append("other:" + str(p))
             props.append(d)
         shapes.append({'iri': str(s), 'targetClass': tcs, 'pattern': pats, 'props': props})
-    node_objs = set(str(o) for o in g.objects(None, SH.node))
+    node_objs = set(str(o) for o in g.objects(None, SH.node))      # includes the alternatives of sh:or
     declared = set(str(s) for s in g.subjects(RDF.type, SH.NodeShape))
     return {'shapes': shapes, 'sh_node_objects': node_objs, 'declared': declared}
 
